@@ -3,6 +3,7 @@ import ast
 
 from .. import util
 from ..interp import Interp, Path, exc_value, is_exc, show, strip_sites, subterms, NONE, REPRESENTATIVES
+from .. import slots
 from ..report import Undecided
 
 SELF = ("sym", "self")
@@ -157,8 +158,8 @@ def sweep(chk):
     fi = prog.lookup_method(cls, sweep_name)
     name = fi.qual
     RUNNING = ("attr", SELF, "running")
-    ISDOWN = ("attr", SELF, "_is_shutdown")
-    FLAG = ("attr", SELF, "_must_shutdown")
+    ISDOWN = ("attr", SELF, slots.shutdown_event(prog))
+    FLAG = ("attr", SELF, slots.shutdown_flag(prog))
     SLEEP = ("glob", "ext:trio.sleep")
     inj = [("raise", exc_value("ext:trio.Cancelled", "injected")), ("raise", REPRESENTATIVES["AnyException"]), ("raise", REPRESENTATIVES["OtherBase"])]
 
@@ -212,7 +213,7 @@ def sweep(chk):
         evs = o.path.events
         st = [i for i, e in enumerate(evs) if e[0] == "store" and e[1] == FLAG and e[2] == ("const", True)]
         wt = [i for i, e in enumerate(evs) if e[0] == "call" and e[1][1] == ("attr", ISDOWN, "wait")]
-        sp = [i for i, e in enumerate(evs) if e[0] == "call" and e[1][1][0] == "attr" and e[1][1][2] == "stop" and e[1][1][1] == ("attr", SELF, "_meta_runner")]
+        sp = [i for i, e in enumerate(evs) if e[0] == "call" and e[1][1][0] == "attr" and e[1][1][2] == "stop" and e[1][1][1] == ("attr", SELF, slots.service_meta(prog))]
         if len(st) != 1 or len(wt) != 1 or len(sp) != 1:
             chk.bad(rule, sd.qual, "shutdown does not perform exactly: set the request flag, wait for the sweep's end event, stop the runners (flag writes %d, waits %d, stops %d)" % (len(st), len(wt), len(sp)), node=sd.node, stmt="shutdown-steps")
             ok = False
@@ -227,8 +228,8 @@ def sweep(chk):
         chk.undecided(rule, name, "the sweep has no while loop", node=fi.node)
         ok = False
     else:
-        mentions = any(isinstance(n, ast.Attribute) and n.attr == "_must_shutdown" for n in ast.walk(loop.test))
-        breaks = [n for n in ast.walk(loop) if isinstance(n, ast.If) and any(isinstance(x, ast.Attribute) and x.attr == "_must_shutdown" for x in ast.walk(n.test)) and any(isinstance(b, (ast.Break, ast.Return)) for b in n.body)]
+        mentions = any(isinstance(n, ast.Attribute) and n.attr == slots.shutdown_flag(prog) for n in ast.walk(loop.test))
+        breaks = [n for n in ast.walk(loop) if isinstance(n, ast.If) and any(isinstance(x, ast.Attribute) and x.attr == slots.shutdown_flag(prog) for x in ast.walk(n.test)) and any(isinstance(b, (ast.Break, ast.Return)) for b in n.body)]
         if not mentions and not breaks:
             chk.bad(rule, name, "the sweep loop does not test the shutdown request flag: shutdown() never makes accept() return", node=loop, stmt="flag-not-tested")
             ok = False
@@ -309,7 +310,7 @@ def sweep(chk):
                 if isinstance(node, (ast.Assign, ast.AugAssign, ast.AnnAssign)):
                     tg = node.targets if isinstance(node, ast.Assign) else [node.target]
                     for t in tg:
-                        if isinstance(t, ast.Attribute) and t.attr == "_must_shutdown":
+                        if isinstance(t, ast.Attribute) and t.attr == slots.shutdown_flag(prog):
                             n += 1
                             chk.count()
                             val = node.value.value if isinstance(node.value, ast.Constant) else None
@@ -349,12 +350,12 @@ def sweep(chk):
         chk.bad(rule, cls.qual, "the shutdown request flag is not (re)initialised in __init__, accept and shutdown (%d writes found): after one shutdown a new accept ends immediately" % n, node=cls.node, stmt="flag-writes")
         ok = False
     # fresh runners per run; running cleared in finally; close-all clears the mapping
-    launch = prog.method(META, "_launch_runners")
-    fresh = any(isinstance(nn, ast.Assign) and any(isinstance(t, ast.Attribute) and t.attr == "_runners" for t in nn.targets) and isinstance(nn.value, (ast.Dict, ast.Call)) for nn in ast.walk(launch.node))
+    launch = slots.launcher(prog)
+    fresh = any(isinstance(nn, ast.Assign) and any(isinstance(t, ast.Attribute) and t.attr == slots.runners_map(prog) for t in nn.targets) and isinstance(nn.value, (ast.Dict, ast.Call)) for nn in ast.walk(launch.node))
     if not fresh:
         chk.bad(rule, launch.qual, "the runner mapping is not rebuilt for a new run: a restarted runtime reuses stopped runners", node=launch.node, stmt="runners-not-fresh")
         ok = False
-    mr = prog.method(META, "_manage_runners")
+    mr = slots.supervisor(prog)
     inj2 = [("value", NONE)] + [("raise", REPRESENTATIVES[k]) for k in ("AnyException", "KeyboardInterrupt", "asyncio.CancelledError")]
 
     def hook3(it, path, ct, node):
